@@ -659,3 +659,19 @@ def replay(ctx, path):
     print("expected:", expected(c.op, c.d, c.X, c.Y, c.O))
     print("property:", "VIOLATED - " + why if why else "holds on this case")
     return 1 if why else 0
+
+
+META = {
+    "text": "Rocq theorems for ALL dimensions >= 0 (m<n, m=n, m>n, inner dimension 1) and ALL contents over an arbitrary "
+            "element type: the four product variants return exactly the defining sums with the documented operand shapes, "
+            "T1/T2 are exact and involutive, the 13 identity/triangle/diagonal routines produce exactly their pattern, every "
+            "model run is Ok (no out-of-bounds read or write on exactly-sized arrays, fuel never exhausted) with the stated "
+            "number of stores; ring-level corollaries ((YX)^T = X^T Y^T, identity is a unit) over any ring_theory, Z and R. "
+            "Tie: model extracted at Z vs the C on integer-valued doubles (exact, FP flags checked, canary cells, ASan/UBSan), "
+            "all small shapes exhaustively, plus a bit-exact PrimFloat run on arbitrary doubles.",
+    "note": "Trusted: Coq kernel/vm_compute; extraction (ExtrOcamlBasic only) + drivers; the cursor-level model "
+            "coq/C09/LinalgDefs.v is hand-written and tied by correspondence on the generated shapes only; a_uint/a_size "
+            "modelled as nat; memory safety of the C observed (guards, ASan), proved only of the model. Real-number axioms only "
+            "under the two R instances.",
+    "technique": "Rocq proof (loop invariants over cursor arithmetic, induction on dimensions) + extracted-model/PrimFloat vs C correspondence",
+}
